@@ -14,8 +14,9 @@
 
 static CC_DynamicPool *pool;
 static struct { uint8_t *p; int pg; } ptrs[MAXP]; static size_t nptrs;   /* every allocation result */
-static struct { uint8_t *p; size_t n; int pg; } shadow[MAXP]; static size_t nshadow;
+static struct { uint8_t *p; size_t n; int pg; int pat; } shadow[MAXP]; static size_t nshadow;   /* pat < 0: not written */
 static size_t pat_counter;
+static void check_contents(void);
 static size_t first_size;
 static int sparse;      /* obs=sparse: used/free are queried only on `observe` */
 static int libc_pool;   /* built by cc_dynamic_pool_new: pages come from libc and are not pre-filled */
@@ -83,10 +84,21 @@ static void phys(void) {
             (size_t)(shadow[i].p - payload(pg[shadow[i].pg])) % pool->alignment_boundary) o(" WALK=block-misaligned");
     }
     if (pool->is_fixed && n != 1) o(" WALK=fixed-pool-grew");
+    check_contents();
     if (sizeof(PageInfo) != 16) o(" WALK=pageinfo-size-%zu", sizeof(PageInfo));
     for (int i = 0; i < n; i++) if (pg[i]->size > (size_t)-1 - sizeof(PageInfo)) o(" WALK=page-size-wraps");
 }
+/* every live block — also those in older pages — still holds the pattern its user wrote: an
+ * expansion, a later block, a calloc or a roll-back must not move or touch an earlier block */
+static void check_contents(void) {
+    for (size_t i = 0; i < nshadow; i++) {
+        if (shadow[i].pat < 0) continue;
+        for (size_t j = 0; j < shadow[i].n; j++)
+            if (shadow[i].p[j] != (uint8_t)shadow[i].pat) { o(" WALK=block-content-changed"); return; }
+    }
+}
 static void handed_out(uint8_t *p, size_t n, size_t used_before, size_t pages_before) {
+    check_contents();
     size_t off = 0; int pgi = p ? page_of(p, &off) : -1;
     if (nptrs < MAXP) { ptrs[nptrs].p = p; ptrs[nptrs].pg = pgi; nptrs++; }
     if (!p) {
@@ -94,11 +106,12 @@ static void handed_out(uint8_t *p, size_t n, size_t used_before, size_t pages_be
         if (priv_used() != used_before || (size_t)page_list(pg) != pages_before) o(" WALK=null-changed-state");
         return;
     }
-    if (nshadow < MAXP) { shadow[nshadow].p = p; shadow[nshadow].n = n; shadow[nshadow].pg = pgi; nshadow++; }
+    int pat = -1;
     if (pgi >= 0) {
         PageInfo *pg[MAXPG]; page_list(pg);
-        if (n <= pg[pgi]->size && off <= pg[pgi]->size - n) memset(p, (int)(1 + (pat_counter++ % 250)), n);
+        if (n <= pg[pgi]->size && off <= pg[pgi]->size - n) { pat = (int)(1 + (pat_counter++ % 250)); memset(p, pat, n); }
     }
+    if (nshadow < MAXP) { shadow[nshadow].p = p; shadow[nshadow].n = n; shadow[nshadow].pg = pgi; shadow[nshadow].pat = pat; nshadow++; }
 }
 static size_t npages(void) { PageInfo *pg[MAXPG]; return (size_t)page_list(pg); }
 
